@@ -610,6 +610,49 @@ def parityInside (inBounds : Bool) (collisions : Nat) : Bool := inBounds && coll
 /-- `meshSDF.SDF/PointSDF/FaceSDF`: `if m.Solid.Contains(c) { dist } else { -dist }`. -/
 def meshSign (inside : Bool) (dist : α) : α := if inside then dist else -dist
 
+/-! ## 2-D `meshSDF` (segments); leaves whose distance is NaN
+
+`meshDistFunc.Dist`, leaf case: `cp := m.root.Closest(c); dist := cp.Dist(c); if dist < *curDist { *curDist = dist; … }`.
+`*curDist` starts at `math.Inf(1)` and is only ever overwritten by a `dist` that passed the test, so it is never NaN;
+a NaN `dist` (the `Closest` of a zero-length 2-D segment `{p, p}` is `0/0`) fails `dist < *curDist` and the leaf is
+ignored.  `scanStep` is that leaf step for an abstract leaf evaluation (`none` = "the distance is NaN"); `notNaN` is
+the float test `x == x` written with the order only, so that it is `true` in every ordered field and `false`
+exactly on NaN at `Float`. -/
+
+/-- Go `!math.IsNaN(x)` through the order: `x <= x`. -/
+def notNaN (x : α) : Bool := decide (x ≤ x)
+
+/-- leaf step of `meshDistFunc.Dist` over an abstract leaf evaluation (`none`: NaN distance, the test
+`dist < *curDist` is false whatever `*curDist` is). -/
+def scanStep {β γ : Type} (leaf : β → Option (α × γ)) (cur : Option (α × γ)) (f : β) : Option (α × γ) :=
+  match leaf f with
+  | none => cur
+  | some x => if ltCur x.1 (cur.map (·.1)) then some x else cur
+
+/-- `meshDistFunc.Dist` as the linear scan over the pieces, from `*curDist = +Inf` -/
+def scanWith {β γ : Type} (leaf : β → Option (α × γ)) (fs : List β) : Option (α × γ) :=
+  fs.foldl (scanStep leaf) none
+
+/-- a 2-D `Segment` -/
+structure Seg (α : Type) where
+  a : V2 α
+  b : V2 α
+
+/-- leaf evaluation of the 2-D `meshDistFunc`: `Segment.Closest`, `Coord.Dist`, NaN test -/
+def segLeaf2 (E : Env α) (c : V2 α) (f : Seg α × Nat) : Option (α × V2 α × Nat) :=
+  let cp := segClosest2 E f.1.a f.1.b c
+  let d := cp.dist E c
+  if notNaN d then some (d, cp, f.2) else none
+
+/-- 2-D `meshDistFunc.Dist` as the linear scan over the segments (distance, point, segment index) -/
+def meshScan2 (E : Env α) (segs : List (Seg α × Nat)) (c : V2 α) : Option (α × V2 α × Nat) :=
+  scanWith (segLeaf2 E c) segs
+
+/-- 2-D `Segment.Normal`: `Coord{X: -delta.Y, Y: delta.X}.Normalize()` -/
+def segNormal2 (E : Env α) (s0 s1 : V2 α) : V2 α :=
+  let delta := s1.sub s0
+  (⟨-delta.y, delta.x⟩ : V2 α).normalize E
+
 /-! ## `profileSDF`, `profilePointSDF` -/
 
 /-- `profileSDF.SDF` given the value `sdf2d` of the 2-D SDF at `c.XY()`. -/
